@@ -237,6 +237,7 @@ def sorted_search(facts, res):
                     res.violation(R, tbf.rel(facts.path_of(c)), fn["qname"], "group-key@%d" % c["l"][1], c["l"][1], "groups are searched with the value `%s`, not an interaction's '%s'" % (val[:60], primary))
         if k < 3:
             raise AnalysisBroken("%s: %d keyed searches recognised (3 confirmed by reading)" % (fn["qname"], k))
+        search_semantics(facts, res, fn, searches, idx, grp)
     cn = [(r"lambda@\d+", "lambda")]
     cursor.compare(facts, res, R, fns[0], fns[1], "the two group mappers", cn, cn)
 
@@ -283,6 +284,92 @@ def mapper_exits(facts, res):
         if got != want:
             res.violation(R, tbf.rel(facts.path_of(calls[0])), fw["qname"], "forward-args", calls[0]["l"][1], "the single-tree mapper must forward (list, groups, working group, the same groups, callback); it forwards %s" % got)
     res.floor(R, n, 4, "mapper exits and forwards")
+
+
+def search_semantics(facts, res, fn, searches, idx, grp):
+    """C01.4 (strictness): the comparator of each binary search is the predicate its algorithm needs, decided by truth table over small
+    integers - lower_bound over the list: key(e) < v (first interaction at or after the group's first index); lower_bound over the groups:
+    last(g) < v (first group ending at or after the interaction); upper_bound over the list: v < key(e) (first interaction after the
+    group's last index) - and the searched values are the current group's first / last index and the found interaction's key.  With `<=`
+    in the first, the interactions whose source is exactly a group's first cell are skipped; in the third, those of its last cell."""
+    import mapexit
+    R = "C01.4.sorted-search"
+    D = range(4)
+    elems = [("ELEM", a) for a in D]
+    groups = [("GROUP", (s_, e_)) for s_ in D for e_ in D if s_ <= e_]
+    vals = list(D)
+    body = tbf.body(fn)
+    tbf.link_parents(body)
+    decl_of = {}
+    for v in walk(body):
+        if v.get("k") == "VarDecl" and kids(v):
+            i0 = strip(kids(v)[0])
+            if i0.get("k") == "CallExpr":
+                decl_of[id(i0)] = v
+    first_item = None
+    for c in searches:
+        a = tbf.call_args(c)
+        nm = tbf.callee_name(c)
+        over_idx = any(y.get("did") == idx for y in walk(a[0])) or any(y.get("did") == idx for y in walk(a[1]))
+        if not over_idx and not any(y.get("did") == grp for y in walk(a[0])):
+            # range given by an iterator variable: it belongs to the list when that variable was produced by a search over the list
+            over_idx = first_item is not None and any(y.get("did") == first_item["did"] for y in walk(a[0]))
+        lam = [y for y in walk(c) if y.get("k") == "LambdaExpr"]
+        if len(lam) != 1 or nm not in ("lower_bound", "upper_bound"):
+            continue
+        f = tbf.rel(facts.path_of(c))
+        key = "strictness@%d" % c["l"][1]
+        if nm == "lower_bound":
+            xs, ys = (elems if over_idx else groups), vals
+            want = (lambda x, y: x[1] < y) if over_idx else (lambda x, y: x[1][1] < y)
+            need = "key(e) < v" if over_idx else "last(g) < v"
+        else:
+            xs, ys = vals, (elems if over_idx else groups)
+            want = (lambda x, y: x < y[1]) if over_idx else (lambda x, y: x < y[1][0])
+            need = "v < key(e)" if over_idx else "v < first(g)"
+        tab = mapexit.lambda_table(facts, fn, lam[0], xs, ys, idx, grp)
+        bad = [(x, y) for (x, y), got in tab.items() if got != want(x, y)]
+        res.instance(R, "%s comparator@%d" % (fn["qname"], c["l"][1]), facts.loc(c), "%s over the %s: comparator == `%s` on all %d argument pairs: %s" % (nm, "list" if over_idx else "groups", need, len(tab), "yes" if not bad else "no"))
+        if bad:
+            x, y = bad[0]
+            res.violation(R, f, fn["qname"], key, c["l"][1], "%s over the %s needs the comparator `%s`; the lambda differs from it for %s vs %s: interactions whose source index equals a group bound are attributed to the wrong side of the bound and never reach the between-group operator" % (nm, "interaction list" if over_idx else "groups", need, x, y))
+        # the searched value
+        v = strip(a[2])
+        vt = facts.ntext(v)
+        d = decl_of.get(id(c))
+        if nm == "lower_bound" and over_idx:
+            first_item = d
+            okv = v.get("k") in ("CallExpr", "CXXMemberCallExpr") and tbf.callee_name(v) == "getStartingSpacialIndex" and any(y.get("did") == grp for y in walk(v))
+            needv = "the current group's first index"
+        elif nm == "lower_bound":
+            okv = v.get("k") in ("MemberExpr", "CXXDependentScopeMemberExpr") and v.get("name") == "indexSrc" and first_item is not None and any(y.get("did") == first_item["did"] for y in walk(v))
+            needv = "the source index of the interaction just found"
+        else:
+            okv = v.get("k") in ("CallExpr", "CXXMemberCallExpr") and tbf.callee_name(v) == "getEndingSpacialIndex" and any(y.get("did") == grp for y in walk(v))
+            needv = "the current group's last index"
+        if not okv:
+            res.violation(R, f, fn["qname"], "value@%d" % c["l"][1], c["l"][1], "%s over the %s searches for `%s`, not for %s" % (nm, "list" if over_idx else "groups", vt[:80], needv))
+    # the branch that decides between "skip groups" and "hand a batch over": last(current group) < key(found interaction)
+    if first_item is not None:
+        ifs = [x for x in walk(body) if x.get("k") == "IfStmt" and any(y.get("k") == "CallExpr" and tbf.callee_name(y) == "upper_bound" for y in walk(x))]
+        if len(ifs) != 1:
+            raise AnalysisBroken("%s: the branch choosing between skipping groups and handing a batch over was not recognised" % fn["qname"])
+        cond = [y for y in kids(ifs[0]) if y.get("k") != "DeclStmt"][0]
+        g = mapexit.Guard(facts, fn, idx, grp)
+        cur = [y for y in walk(cond) if y.get("k") == "DeclRefExpr" and y.get("did") not in (idx, grp, first_item["did"])]
+        wrong = None
+        for (s_, e_) in [(s_, e_) for s_ in D for e_ in D if s_ <= e_]:
+            for a_ in D:
+                g.bind = {first_item["did"]: ("IT", ("ELEM", a_))}
+                for y in cur:
+                    g.bind[y["did"]] = 0
+                got = bool(g.ev(cond, ((a_,), ((s_, e_),))))
+                if got != (e_ < a_):
+                    wrong = ((s_, e_), a_, got)
+        res.instance(R, "%s branch@%d" % (fn["qname"], ifs[0]["l"][1]), facts.loc(ifs[0]), "`%s` == last(group) < key(found) for every group interval and key in 0..3: %s" % (facts.ntext(cond)[:80], "yes" if wrong is None else "no"))
+        if wrong is not None:
+            res.violation(R, tbf.rel(facts.path_of(ifs[0])), fn["qname"], "branch@%d" % ifs[0]["l"][1], ifs[0]["l"][1],
+                          "the mapper skips to another group under `%s`; for the group interval %s and the found source index %d this is %s, whereas the interaction lies %s the group" % (facts.ntext(cond)[:80], wrong[0], wrong[1], wrong[2], "inside" if wrong[0][0] <= wrong[1] <= wrong[0][1] else "outside"))
 
 
 def routing(facts, res, classes):
